@@ -323,10 +323,16 @@ def lay310(ctx: Ctx) -> None:
                     ctx.R.ok("LAY-310", f"{v}: {which} at f_blockstack-{want} ({tcls})")
             # 257 == EXCEPT_HANDLER
             if isinstance(n, ast.Compare) and any(norm(x) == "block.b_type" for x in [n.left] + n.comparators):
-                for x in [n.left] + n.comparators:
+                opers = [n.left] + list(n.comparators)
+                for xi, x in enumerate(opers):
                     okc, xv = resolve_const(mod, n, x) if isinstance(x, (ast.Constant, ast.Name)) else (False, None)
                     if okc and isinstance(xv, int) and not isinstance(xv, bool) and xv > 200:
                         seen["except"] += 1
+                        # an exclusive bound names the value above: `b_type < 258` is `b_type <= 257`
+                        if xi > 0 and norm(opers[xi - 1]) == "block.b_type" and isinstance(n.ops[xi - 1], ast.Lt):
+                            xv -= 1
+                        elif xi + 1 < len(opers) and norm(opers[xi + 1]) == "block.b_type" and isinstance(n.ops[xi], ast.Gt):
+                            xv -= 1
                         if xv != H["EXCEPT_HANDLER"]:
                             ctx.R.fail("LAY-310", mod, n, f"CPython {v}: EXCEPT_HANDLER is {H['EXCEPT_HANDLER']}, code uses {xv}", construct=f"{v}: {norm(n)[:100]}")
                         else:
@@ -360,19 +366,29 @@ def blk1(ctx: Ctx) -> None:
     from ..minieval import Mini, Raised, Unsupported
     mod = ctx.P.mod("_lowlevel_cpython_310")
     fn = mod.fn("inspect_frame")
-    cmps = [c for a in ast.walk(fn) if isinstance(a, ast.Assert) for c in ast.walk(a.test) if isinstance(c, ast.Compare) and any("b_handler" in norm(x) for x in [c.left] + c.comparators)]
-    if len(cmps) != 1 or len(cmps[0].ops) < 1:
-        ctx.R.undecided("BLK-1", f"{len(cmps)} asserted comparisons mention b_handler (1 expected)")
+    # the statements that look at one block: the loop body that reads `block = PyTryBlock.from_address(...)`
+    loops = [l for l in walk_scope(fn) if isinstance(l, (ast.While, ast.For)) and (any(isinstance(a, ast.Assign) and norm(a.targets[0]) == "block" for a in l.body)
+                                                                                   or (isinstance(l, ast.For) and norm(l.target) == "block"))
+             and any(isinstance(a, ast.Assert) for a in l.body)]
+    if len(loops) != 1:
+        ctx.R.undecided("BLK-1", f"{len(loops)} loops bind `block` and assert something about it (1 expected)")
         return
-    c = cmps[0]
-    operands = [c.left] + list(c.comparators)
-    hi = [i for i, x in enumerate(operands) if "b_handler" in norm(x)]
-    if hi != [1]:
-        ctx.R.undecided("BLK-1", f"b_handler is not the middle operand of `{norm(c)[:60]}`")
+    body = loops[0].body
+    bi = ([i for i, a in enumerate(body) if isinstance(a, ast.Assign) and norm(a.targets[0]) == "block"] or [-1])[0]
+    # locals the checks use that are computed before the loop from the interpreter version only
+    pre_names = {n.id for st in body for n in ast.walk(st) if isinstance(n, ast.Name)}
+    pre = [a for a in walk_scope(fn) if isinstance(a, ast.Assign) and len(a.targets) == 1 and isinstance(a.targets[0], ast.Name) and a.targets[0].id in pre_names
+           and "sys.version_info" in norm(a.value) and a not in body]
+    checks = []
+    for st in body[bi + 1:]:
+        if isinstance(st, ast.Assert):
+            checks.append(st)
+        elif isinstance(st, ast.Assign) and len(st.targets) == 1 and isinstance(st.targets[0], ast.Name) and "block." in norm(st.value) and not any(isinstance(c_, ast.Call) for c_ in ast.walk(st.value)):
+            checks.append(st)
+    asserts = [c_ for c_ in checks if isinstance(c_, ast.Assert)]
+    if not asserts:
+        ctx.R.undecided("BLK-1", "the block loop asserts nothing about a block")
         return
-    low = ast.Compare(left=operands[0], ops=[c.ops[0]], comparators=[operands[1]])
-    mults = [a for a in walk_scope(fn) if isinstance(a, ast.Assign) and len(a.targets) == 1 and isinstance(a.targets[0], ast.Name) and a.targets[0].id in {n.id for n in ast.walk(low) if isinstance(n, ast.Name)}
-             and a.targets[0].id not in ("block",)]
     served = [v for v in sorted(ctx.V.all) if ctx.F["interp"][v].get("except_handler_block")]
     if not served:
         raise AnalysisError("BLK-1: no interpreter with a block stack in the facts")
@@ -384,19 +400,27 @@ def blk1(ctx: Ctx) -> None:
             ctx.R.undecided("BLK-1", f"{v}: no EXCEPT_HANDLER block observed")
             continue
         env = {"sys": SimpleNamespace(version_info=full[v], implementation=SimpleNamespace(name="cpython")),
-               "block": SimpleNamespace(b_type=ctx.F["headers"][v]["EXCEPT_HANDLER"], b_handler=h, b_level=0)}
+               "block": SimpleNamespace(b_type=ctx.F["headers"][v]["EXCEPT_HANDLER"], b_handler=h, b_level=0),
+               "co": SimpleNamespace(co_code="x" * 1000), "stack": [0, 0, 0]}
         m = Mini(env)
+        failed = None
         try:
-            for a in mults:
+            for a in pre:
                 m.stmt(a)
-            ok = m.truth(m.expr(low))
+            for st in checks:
+                if isinstance(st, ast.Assert):
+                    if not m.truth(m.expr(st.test)):
+                        failed = st
+                        break
+                else:
+                    m.stmt(st)
         except (Unsupported, Raised) as ex:
-            ctx.R.undecided("BLK-1", f"{v}: lower bound `{norm(low)[:70]}` not evaluable: {ex}")
+            ctx.R.undecided("BLK-1", f"{v}: the per-block checks are not evaluable: {ex}")
             continue
-        if ok:
-            ctx.R.ok("BLK-1", f"{v}: EXCEPT_HANDLER block with b_handler {h} passes `{norm(low)[:60]}`", "FACTS except_handler_block")
+        if failed is None:
+            ctx.R.ok("BLK-1", f"{v}: an EXCEPT_HANDLER block with b_handler {h} passes the {len(asserts)} per-block assertion(s)", "FACTS except_handler_block")
         else:
-            ctx.R.fail("BLK-1", mod, c, f"CPython {v} stores b_handler = {h} in EXCEPT_HANDLER blocks (FACTS: read from a live frame), and the block sanity assertion `{norm(low)[:80]}` rejects that value: "
+            ctx.R.fail("BLK-1", mod, failed, f"CPython {v} stores b_handler = {h} in EXCEPT_HANDLER blocks (FACTS: read from a live frame), and the block sanity assertion `{norm(failed.test)[:80]}` rejects that value: "
                        "inspect_frame raises AssertionError for every frame with an active except block on this interpreter, the trickery falls back to the referents scan (managers outside the "
                        "handler vanish, the exiting entry loses varname / start_line)", construct=f"{v}: EXCEPT_HANDLER b_handler {h} rejected")
 
